@@ -11,8 +11,8 @@ RULE = ("case = (check, mass-configuration class, outside value, route); mass co
         "the box contains both inside and outside points (classification) or the event sample is not degenerate")
 ASSUMPTIONS = ["PDG Dalitz-plot limits from the (23)-frame energies as reference",
                "points closer than 1e-9 (relative to m0^2) to a limit are not judged"]
-FLOORS = {"quick": {"evaluations": 400, "distinct_nontrivial": 20, "hooks": ["lambdify:is_within_phasespace", "lambdify:Kibble"]},
-          "thorough": {"evaluations": 4000, "distinct_nontrivial": 40, "hooks": ["lambdify:is_within_phasespace", "lambdify:Kibble"]}}
+FLOORS = {"quick": {"evaluations": 400, "distinct_nontrivial": 20, "hooks": ["lambdify:is_within_phasespace", "lambdify:Kibble", "lambdify:numbers_before_doit", "exact:Kallen"]},
+          "thorough": {"evaluations": 4000, "distinct_nontrivial": 40, "hooks": ["lambdify:is_within_phasespace", "lambdify:Kibble", "lambdify:numbers_before_doit", "exact:Kallen"]}}
 CASE_TIMEOUT = {"quick": 180, "thorough": 600}
 EPS = np.finfo(float).eps
 MASS_CLASSES = ["generic", "one_massless", "two_massless", "all_massless", "equal", "hierarchical", "near_threshold"]
@@ -174,6 +174,25 @@ def run_case(case, rec, ctx):
         i = int(np.argmin(ok_out))
         rec.check(bool(ok_out.all()), "outside_misclassified", f"point outside the Dalitz limits does not return the outside value {exp_out}: sigma1={s1[i]}, sigma2={s2[i]} not in ({lo[i]},{hi[i]}) -> {got[i]}",
                   {**w0, "sigma1": s1[i], "sigma2": s2[i], "lo": lo[i], "hi": hi[i], "got": got[i]}, {**feats, "outside": ov})
+        # route C: the masses are inserted as exact numbers *before* unfolding (as the library's own test and many
+        # users do); an exactly massless particle is then an exact SymPy zero inside evaluate()
+        import sympy as sp
+        from ampform.kinematics import phasespace as P
+        R = [sp.Rational(v) for v in (M0, M1, M2, M3)]   # exact binary fractions: float(R[i]) == M_i
+        val = {"nan": sp.nan, "0": 0, "-1": -1, "symbol": S["out"]}[ov]
+        try:
+            e_num = P.is_within_phasespace(S["s1"], S["s2"], *R, outside_value=val).doit()
+            f_num = sp.lambdify([S["s1"], S["s2"]] + ([S["out"]] if ov == "symbol" else []), e_num)
+            rec.hit("lambdify:numbers_before_doit")
+            with np.errstate(all="ignore"):
+                got_c = np.asarray(f_num(*([s1, s2] + ([outv] if ov == "symbol" else []))), dtype=float) * np.ones(len(s1))
+            same = (got_c == got) | (np.isnan(got_c) & np.isnan(got)) | near
+            # the two routes may round differently: only points within 1e-9 of a limit may differ (excluded above)
+            i = int(np.argmin(same))
+            rec.check(bool(same.all()), "numbers_first_route", f"is_within_phasespace with exact masses inserted before doit() classifies sigma1={s1[i]}, sigma2={s2[i]} as {got_c[i]}, symbolic route {got[i]} (limits {lo[i]},{hi[i]})",
+                      {**w0, "sigma1": s1[i], "sigma2": s2[i], "got_numbers_first": got_c[i], "got_symbolic": got[i]}, {**feats, "route": "numbers_before_doit"})
+        except Exception as exc:  # noqa: BLE001
+            rec.check(False, "numbers_first_route", f"is_within_phasespace with exact masses before doit() raised {type(exc).__name__}: {exc}", w0, {**feats, "route": "numbers_before_doit"})
         if ov == "nan":
             with np.errstate(all="ignore"):
                 d = np.asarray(F["ind", "default"](s1, s2, M0, M1, M2, M3), dtype=float) * np.ones(len(s1))
@@ -202,8 +221,22 @@ def run_case(case, rec, ctx):
     rec.check(bool((np.abs(kb - k) <= tol).all()), "routes_disagree", "Kallen: lambdified != unfolded evaluate()", None, feats)
 
 
+    # exact-number route: Kallen unfolded with exact arguments, zeros in every slot
+    import sympy as sp
+    from ampform.kinematics import phasespace as P
+    vals = [sp.Integer(0), sp.Rational(1, 4), sp.Rational(9, 4), sp.Integer(3), sp.Rational(float(x[0])), sp.Rational(float(y[0]))]
+    for X in vals:
+        for Y in vals[:4]:
+            for Z in vals[:4]:
+                got_e = P.Kallen(X, Y, Z).doit()
+                want = X ** 2 + Y ** 2 + Z ** 2 - 2 * X * Y - 2 * Y * Z - 2 * Z * X
+                rec.check(bool(sp.simplify(got_e - want) == 0), "kallen_exact", f"Kallen({X},{Y},{Z}).doit() = {got_e}, expected {want}",
+                          {"x": str(X), "y": str(Y), "z": str(Z)}, {**feats, "route": "numbers_before_doit", "zero_argument": 0 in (X, Y, Z)})
+    rec.hit("exact:Kallen")
+
+
 META = {
     "technique": "runtime contracts on Kibble/Kallen/is_within_phasespace/compute_third_mandelstam (lambdified + interpreted) against PDG Dalitz limits on generated events and box grids",
-    "level_text": "The real functions are evaluated on generated three-body events (flat, threshold, boosted, collinear strata) and on grids plus random and boundary-hugging points of the kinematic bounding box for seven mass-configuration classes (incl. massless, equal, hierarchical, near-threshold) and all four outside values; every point away from the boundary by more than 1e-9 m0^2 is judged against the PDG limits. Sampling evidence, no proof.",
+    "level_text": "(Two routes: symbolic doit() then numbers, and exact numbers - incl. exact zeros for massless particles - inserted before doit().) The real functions are evaluated on generated three-body events (flat, threshold, boosted, collinear strata) and on grids plus random and boundary-hugging points of the kinematic bounding box for seven mass-configuration classes (incl. massless, equal, hierarchical, near-threshold) and all four outside values; every point away from the boundary by more than 1e-9 m0^2 is judged against the PDG limits. Sampling evidence, no proof.",
     "level_note": "PDG limit formula and numpy float64 trusted; boundary band of relative width 1e-9 not judged; crossed-channel regions out of scope as in the statement.",
 }
